@@ -70,6 +70,10 @@ def gen_infos(rng, g):
         prots = rng.sample(g, rng.randint(1, len(g)))
         if rng.random() < 0.1:
             prots = prots + [prots[0]]
+        if rng.random() < 0.12:
+            # evidence that also names a protein OUTSIDE the group (score types that keep shared peptides): it may even have more
+            # peptides than every member
+            prots = prots + [rng.choice(["X9", "X9", "REV__X9", "Y8"])]
         inf.append([gens.grid_pep(rng, small=True), e, prots])
     return inf
 
@@ -91,10 +95,13 @@ def gen_case(rng, big=False):
             p = gens.protein_id(rng, nb, 0.45, markers_inside=False)
             if p not in g:
                 g.append(p)
+        plain = g
         if rng.random() < 0.15:
             g = ["OBSOLETE__" + p for p in g]
         groups.append(g)
-        infos.append(gen_infos(rng, g))
+        # (the rescue step renames the members of a placeholder group and leaves its evidence alone: half of the placeholder groups
+        # carry evidence under the unprefixed names)
+        infos.append(gen_infos(rng, plain if rng.random() < 0.5 else g))
         scores.append(gens.fr(rng.choice([1.0, 2.0, 2.0, 3.5, 7.25]) + (rng.choice([0, 1, 2, 3]) * 2.0 ** -30 if near else 0.0)))
         if odd:
             scores[-1] = gens.fr(rng.choice([-100.0, -100.0, -3.5, 0.0, -150.25, 2.0]))
